@@ -12,5 +12,6 @@ TRUSTED_BASE = ["pyvc VC generator; z3/cvc5", "compiled mid symmetric; the .so c
 ASSUMPTIONS = ["text-level agreement is checked by symbolic execution of the rewritten _subsample for grid sizes 1, 2, 4, 8 and both "
                "orientations (the recursion is uniform in n; 256 = 2^8 follows the same rule) - a bounded check of the text, not an induction",
                "latitude containment of pixel centres is floating-point geometry: bounded tier"]
-EXPLANATION = ("toast_tile_get_coords forwards exactly this tile's corners/orientation; one Python subdivision step proved; the .pyx "
-               "recursion text agrees with the Python subdivision rule (rows = y, columns = x)")
+EXPLANATION = ("toast_tile_get_coords forwards exactly this tile's corners/orientation; the level-0 grid is the four level-1 "
+               "subdivisions at half resolution, each in its own quadrant; one Python subdivision step proved; the .pyx recursion text "
+               "agrees with the Python subdivision rule (rows = y, columns = x)")
